@@ -69,9 +69,6 @@ Contract(SM, 'Stream.close', S, prop='C08', modifies=['self._connection.is_close
 Assumed('wpull/protocol/http/request.py', 'Response.parse', {'self': TObj('HTTPResponse'), 'data': TBytes()}, name='HTTPResponse.parse',
         modifies=['self.status_code', 'self.reason', 'self.version', 'self.fields.map', 'self.fields.count'],
         ensures=['self.status_code is not None'], raises={'ProtocolError': []}, note='status line + fields parser: verified below (Response.parse_status_line) / C08')
-Assumed('wpull/protocol/http/request.py', 'Response.__init__', {'self': TObj('HTTPResponse')}, name='HTTPResponse.__init__',
-        modifies=['self.status_code', 'self.reason', 'self.version', 'self.fields', 'self.request', 'self.body'], ensures=['self.status_code is None'], raises={})
-lib.MODULE_CONSTS['Response'] = VFunc('class', 'HTTPResponse')
 Contract(SM, 'Stream.read_response', dict(S, response=TOpt(TObj('HTTPResponse'))), ret=TObj('HTTPResponse'), prop='C04/C08/C09', defaults={'response': None},
     names={'Response': 'HTTPResponse'}, locals={'header_lines': TList(TBytes())},
     modifies=[C, N_, 'self._connection.eof', 'self._connection.failed', 'all_of("HTTPResponse.status_code")', 'all_of("HTTPResponse.reason")', 'all_of("HTTPResponse.version")', 'all_of("NameValueRecord.map")',
@@ -140,9 +137,6 @@ lib.MODULE_CONSTS['ChunkedTransferReader'] = VFunc('class', 'ChunkedTransferRead
 Assumed(CH, 'ChunkedTransferReader.__init__', {'self': TObj('ChunkedTransferReader'), 'connection': TObj('HConnection'), 'read_size': TInt()}, defaults={'read_size': 4096},
         modifies=['self._connection', 'self._read_size', 'self._chunk_size', 'self._bytes_left'],
         ensures=['self._connection == connection', 'self._read_size == read_size', 'self._bytes_left is None'], raises={}, note='four assignments')
-if 'NameValueRecord.parse' not in CONTRACTS:
-    Assumed('wpull/namevalue.py', 'NameValueRecord.parse', {'self': TObj('NameValueRecord'), 'string': TBytes(), 'strict': TBool()}, defaults={'strict': True},
-            modifies=['self.map', 'self.count'], raises={'ValueError': ['strict']}, note='malformed field lines: ValueError only when strict')
 RBC = dict(S, response=TObj('HTTPResponse'), file=TOpt(TObj('BodyFile')), raw=TBool())
 Contract(SM, 'Stream._read_body_by_chunk', RBC, prop='C04/C08/C09/C19', defaults={'raw': False}, requires=['self._read_size > 0', 'implies(raw, file is not None)'],
     modifies=BODY_MOD + ['response.fields.map', 'response.fields.count', 'all_of("ChunkedTransferReader._bytes_left")', 'all_of("ChunkedTransferReader._chunk_size")',
